@@ -700,6 +700,7 @@ func ruleRecoveredEpochStartsAtItsFirstMessage(c *eng.Ctx) {
 	if fn == nil {
 		return
 	}
+	ruleEpochRecoveryWalksEverySegment(c, fn)
 	var eps []ssa.Instruction
 	for _, cs := range eng.CallsIn(fn, cl+"messageSet.LeaderEpoch") {
 		eps = append(eps, cs.(ssa.Instruction))
@@ -1448,4 +1449,34 @@ func ruleSteppingDownAlwaysStopsTheDispatcher(c *eng.Ctx) {
 	}, CutInstr: eng.IsCallTo("server.activityManager.BecomeFollower")}
 	w := q.Find()
 	c.Check(w == nil, "a completed step-down has stopped the activity dispatcher", c.P.Pos(fn.Pos()), "every successful return of leadershipLost passes activity.BecomeFollower()", "leadershipLost can succeed without BecomeFollower (path "+w.String()+"): after a promotion that failed behind BecomeLeader the dispatcher of that term keeps running, the next term starts a second one, and the two publish the same Raft log range concurrently — duplicates out of commit order")
+}
+
+// ruleEpochRecoveryWalksEverySegment (R05.8 / R02.5 extension; round 12): the checkpoint file can be missing or stale by more
+// than the active segment (deleted, or never written because each append's checkpoint failed), so the backward scan for
+// epochs the cache lacks goes over the segments of the list, newest to oldest, until it meets a known epoch — not over the
+// active segment alone.
+func ruleEpochRecoveryWalksEverySegment(c *eng.Ctx, fn *ssa.Function) {
+	mk := eng.CallsIn(fn, cl+"newReverseSegmentScannerFromEnd")
+	if len(mk) == 0 {
+		c.Unresolved("the newReverseSegmentScannerFromEnd call of recoverLeaderEpochs")
+		return
+	}
+	for _, m := range mk {
+		in := m.(ssa.Instruction)
+		ok := false
+		if args := eng.AllArgs(m.Common()); len(args) == 1 {
+			if ld, isLd := eng.Strip(args[0]).(*ssa.UnOp); isLd && ld.Op == token.MUL {
+				if ia, isIA := ld.X.(*ssa.IndexAddr); isIA && eng.LoadNamed("segments", nil)(ia.X) {
+					if _, isConst := ia.Index.(*ssa.Const); !isConst {
+						for h := in.Block(); h != nil; h = h.Idom() {
+							if isLoopHeader(h) {
+								ok = true
+							}
+						}
+					}
+				}
+			}
+		}
+		c.Check(ok, "the scan for missing epochs goes over the segment list", c.Pos(in), "newReverseSegmentScannerFromEnd(l.segments[i]) inside a loop over the segments", "recoverLeaderEpochs scans "+eng.Describe(eng.AllArgs(m.Common())[0])+" only: epochs whose first message lies in an older segment are not recovered when the checkpoint file is missing or stale, the leader answers a later boundary for them, and a follower keeps messages of a deposed leader")
+	}
 }
